@@ -297,6 +297,9 @@ var tagRegexes = []string{"^a", "a|x", "^$", ".*", "b$", "^(ab|y)$", "^a$"}
 
 func genTagLeaf(t *rapid.T, label string, d *dataset) *pnode {
 	n := &pnode{Kind: "cmp", Lit: &lit{K: "s"}}
+	if d.Wide != nil && rapid.IntRange(0, 3).Draw(t, label+"wide?") == 0 {
+		return genWideTagLeaf(t, label, n)
+	}
 	switch rapid.IntRange(0, 9).Draw(t, label+"ref") {
 	case 0, 1, 2:
 		n.Ref = "host"
